@@ -660,6 +660,12 @@ func (x *wfExec) exec(ctx context.Context, leaf int, in any, inIsErr bool) (any,
 		return resErrMarker{re}, nil
 	case o.Err != 0:
 		err = mkErr(o.Err, x.tag(leaf, visit, "exec", a))
+		if o.Pay%2 == 1 && x.sc.Nodes[leaf].Leaf.Kind != KFunc {
+			// a struct node's failing attempt may hand a (partial) value back together with its error;
+			// nothing may ever use it (the retry / the fallback decides the outcome)
+			x.end(seq, nil, err, "")
+			return mkPayload(o.Pay, x.tag(leaf, visit, "stale", a)), err
+		}
 	default:
 		ret = mkPayload(o.Pay, x.tag(leaf, visit, "exec", a))
 	}
